@@ -940,6 +940,8 @@ def splice_function(ft, directives, security=False):
             # annotated in the copied expression text (the header is replaced wholesale below)
             for d2 in directives:
                 if d2.kind == 'closure' and 'pat' not in d2.arg.split()[1:]:   # (`@@closure k pat` = R19, handled below)
+                    if 'opt' in d2.arg.split()[1:] and int(d2.arg.split()[0]) > len(closure_starts(src, ob + 1, cb)):
+                        continue   # `@@closure k opt`: annotation of a closure that is not there (see below)
                     ci2, k2, eds2 = closure_edits(src, text, d2, ob, cb, ft)
                     if in_si < ci2 < lob:
                         for (ea, eb, enew) in sorted(eds2, reverse=True):
@@ -1126,6 +1128,12 @@ def splice_function(ft, directives, security=False):
         elif d.kind == 'closure':
             cls = closure_starts(src, ob + 1, cb)
             k = int(d.arg.split()[0])
+            if k > len(cls) and 'opt' in d.arg.split()[1:]:
+                # `@@closure k opt` (added for unit `repair_decision`): the annotation concerns a closure
+                # that is not there (the code around it was removed) — it is skipped, like the *_opt
+                # hint anchors; the obligations themselves are unaffected
+                fired.append(('note', 0, 'optional closure annotation %d: closure absent, skipped' % k))
+                continue
             if not (1 <= k <= len(cls)):
                 raise Undecided('lost-anchor', 'closure %d not found in %s (has %d)' % (k, ft.name, len(cls)))
             ci = cls[k - 1]
